@@ -11,7 +11,9 @@ CHECKS = {
  "C05": "The placement decision tree is transcribed in SimMatch!Place; TLC checks the limit / level / fill-or-kill / best-price-execution formulas for every book x order of the bounded space, and on every placement the real engine performs in random runs, whose result must equal SimMatch!Place on the logged book.",
  "C06": "Passive matching is transcribed in SimMatch!Passive/FoldPassive; TLC checks lone-order exactness and the aggregate no-overfill / better-price-first formulas on all traded ladders for groups of <=3 orders, and on every middleware pass of real runs against a ledger rebuilt from the raw input lines.",
  "C07": "Release of pending packages (due iff strictly more than latency + bet delay at request time has elapsed on the market's own updates), execution against the previous book, clock = publish time and timestamp ordering are TLA+ formulas checked on the design model and on every recorded step.",
+ "C08": "The exchange's settlement rules are a TLA+ module in integer arithmetic (Settlement.tla); TLC checks their laws (side symmetry, zero for unmatched/removed, dead-heat and line rules) exhaustively on a bounded space and evaluates order.profit and the cleared-market summary of every real closure against them.",
  "C09": "Runner-removal formulas (void in full and complete, reduction within half a cent applied once per market, no spurious reduction) checked by TLC on the design model and on recorded middleware passes incl. two-market runs.",
+ "C20": "Closure bookkeeping (Closure.tla: repeated CLOSED books, re-open, first-seen-closed, removal after an hour in live) is model checked; every closing update of real simulation runs is judged by the same formulas (callbacks once per closing update and receiving strategy, cleared events, flags, released state).",
  "C10": "Runner-context accounting recounted from the orders by TLA+ formulas at the end of every update (design: every reachable state; real code: every recorded update); limits checked at every accepted placement.",
  "C15": "Blotter membership / live-list formulas checked by TLC on the design model and on traces of the real code.",
 }
